@@ -158,6 +158,12 @@ pub fn generate(rng: &mut Rng, tier: &str, _idx: u64) -> Scenario {
     let span = match rng.below(if thorough { 4000 } else { 40_000 }) {
         0 => 260_000,
         1..=3 => 5_000,
+        4..=13 => {
+            // sizes around powers of two (ring-buffer capacities, bit tricks)
+            let k = rng.range(1, 12) as u32;
+            ((1i32 << k) + rng.range(-1, 1) as i32).max(0)
+        }
+        14..=40 => rng.range(0, 300) as i32,
         _ => *rng.pick(&[0, 0, 1, 1, 2, 2, 5, 5, 12, 50, 400]),
     };
     let base_year = match rng.below(12) {
@@ -178,11 +184,13 @@ pub fn generate(rng: &mut Rng, tier: &str, _idx: u64) -> Scenario {
     let cfg = Cfg {
         base_year,
         span,
-        len: match rng.below(10) {
-            0 => 0,
-            1 => 1,
-            2 => 2,
-            3 => 3,
+        // swarm, sizes: one history in two hundred is long (hundreds to thousands of operations)
+        len: match rng.below(200) {
+            0 => rng.range(300, 3000) as usize,
+            1..=20 => 0,
+            21..=40 => 1,
+            41..=60 => 2,
+            61..=80 => 3,
             _ => rng.range(4, 40) as usize,
         },
         p_short: rate(rng),
